@@ -180,7 +180,7 @@ def server_factory(run):
                 return {"code": "UNIMPLEMENTED"}
             st["t0"] = now
             o = build_operation(codec, spec, op, m, fs["package"], op.get("initial_done"), 0)
-            return {"lat": 0.0, "reply": o.SerializeToString(deterministic=True)}
+            return {"lat": 0.0, "msg": o}
         st["arrivals"] += 1
         j = st["arrivals"]
         code = (op.get("poll_script") or {}).get(str(j))
@@ -189,7 +189,7 @@ def server_factory(run):
         done = op.get("initial_done") or (st["t0"] is not None and now - st["t0"] >= op.get("done_at", 0.0) - 1e-9)
         o = build_operation(codec, spec, op, m, fs["package"], done, j)
         run.sim.ev("server_poll", op=op["id"], j=j, done=bool(done), meta_idx=min(j, len(op.get("meta_vals") or [0]) - 1))
-        return {"lat": op.get("poll_lat", 0.0), "reply": o.SerializeToString(deterministic=True)}
+        return {"lat": op.get("poll_lat", 0.0), "msg": o}
     return serve
 
 
